@@ -274,13 +274,34 @@ Definition getput_stmt (put : bool) (st : state) (n : Z) (pos : option Z) : stat
                 end
        end.
 
+(* X$ = INPUT$(1, #n): Files.input_ + TextFile.read - the access check comes before any data is read;
+   what is read (or Input past end) depends on the file contents and is not modelled: Host host_Other *)
+Definition textread_stmt (st : state) (n : Z) : state * res unit :=
+  if (n <? 0) || (255 <? n) then (st, Err locks_err_IFC)
+  else if n <? 1 then (st, Err locks_err_BAD_FILE_NUMBER)
+  else match find n (st_files st) with
+       | None => (st, Err locks_err_BAD_FILE_MODE)
+       | Some this =>
+           match lp_mode this with
+           | MO | MA => (st, Err locks_err_BAD_FILE_MODE)
+           | MR => (st, Host host_Other)                 (* reads the FIELD buffer *)
+           | MI => match try_access (st_files st) n false with
+                   | Ok _ => (st, Host host_Other)
+                   | Err e => (st, Err e)
+                   | Host h => (st, Host h)
+                   | OutOfFuel => (st, OutOfFuel)
+                   end
+           end
+       end.
+
 Inductive op :=
 | OpOpen (nm n : Z) (m : fmode) (a : acc) (lt : ltype) (reclen : Z)
 | OpClose (n : Z)
 | OpLock (n : Z) (so eo : option Z)
 | OpUnlock (n : Z) (so eo : option Z)
 | OpGet (n : Z) (pos : option Z)
-| OpPut (n : Z) (pos : option Z).
+| OpPut (n : Z) (pos : option Z)
+| OpTextRead (n : Z).
 
 Definition step (st : state) (o : op) : state * res unit :=
   match o with
@@ -290,6 +311,7 @@ Definition step (st : state) (o : op) : state * res unit :=
   | OpUnlock n so eo => lock_stmt true st n so eo
   | OpGet n pos => getput_stmt false st n pos
   | OpPut n pos => getput_stmt true st n pos
+  | OpTextRead n => textread_stmt st n
   end.
 
 (* direct mode: an error ends the statement, the next statement runs on the state left behind *)
